@@ -3,6 +3,7 @@ import CwMt.Proofs.EngineTx
 import CwMt.Proofs.TxSites
 import CwMt.Proofs.Executor
 import CwMt.Proofs.Layout
+import CwMt.Proofs.Json
 /-
   C01 — Top-level transactions are atomic: all-or-nothing, in order.
   Model: CwMt/Model/Engine.lean (`App.executeMulti`, `App.execute`, `App.sudo`, `App.wasmSudo`,
@@ -193,5 +194,35 @@ example : parseInstantiateResponseData (encodeInstantiateResponse "c0" [1, 2]) =
   rw [show ("c0" : String) = String.ofList ['c', '0'] from rfl, Layout.utf8_ofList]
   decide
 example : parseExecuteResponseData (encodeExecuteResponse []) = some none := by decide
+
+/-! ### "every byte of storage": the typed state and the bytes kept in the store
+
+The model's chain state is typed (balances, `ContractData`); the root storage holds their JSON text (`cosmwasm_std::to_json_vec` =
+serde-json-wasm). `CwMt/Model/Json.lean` transcribes that text and `CwMt/Model/Flat.lean` lists the raw records of a state; the wasm
+slices compare them byte for byte with the real root storage (`rawdump`). The theorems below say that nothing is lost in between:
+the text reads back as the record it was printed from — for every denomination, label and address string, including quotes,
+backslashes, control characters and non-ASCII text — so equal bytes in the store mean equal typed state and vice versa. -/
+
+/-- a stored balance reads back -/
+theorem json_balances_roundtrip (cs : Coins) (rest : List Char) :
+    Json.parseBalances (Json.balances cs ++ rest) = some (cs, rest) :=
+  Json.parseBalances_balances cs rest
+
+/-- a stored `ContractData` reads back -/
+theorem json_contract_roundtrip (cd : ContractData) (rest : List Char) :
+    Json.parseContract (Json.contract cd ++ rest) = some (cd, rest) :=
+  Json.parseContract_contract cd rest
+
+/-- equal bytes under a bank key ⇒ equal balances -/
+theorem stored_balance_bytes_injective {a b : Coins} (h : Json.balancesJson a = Json.balancesJson b) : a = b :=
+  Json.balances_injective (Json.toBytes_injective h)
+
+/-- equal bytes under a registry key ⇒ equal contract records -/
+theorem stored_contract_bytes_injective {a b : ContractData} (h : Json.contractJson a = Json.contractJson b) : a = b :=
+  Json.contract_injective (Json.toBytes_injective h)
+
+/-- not vacuous: a balance with an awkward denomination and a contract without admin -/
+example : (Json.parseBalances (Json.balances [⟨"d\"\n", 5⟩, ⟨"é", 0⟩])).map (·.1) = some [⟨"d\"\n", 5⟩, ⟨"é", 0⟩] := by
+  rw [← List.append_nil (Json.balances _), json_balances_roundtrip]; rfl
 
 end CwMt.C01
